@@ -60,10 +60,27 @@ def check_result(ctx, r):
     ctx.violation("monitor", "cost %.9g is not -overall log-likelihood + switching cost %.9g (within pairs %d, boundary pairs %d)" % (cost, want, within, bounds), {"case": case})
 
 
+def worker_runs(cfgs):
+    """worker entry point (JIT mode): complete traced runs, reduced to what check_result reads"""
+    out = []
+    for c in cfgs:
+        r = e2e.traced_run(c)
+        out.append({"cfg": r["cfg"], "result": r["result"], "error": r["error"]})
+    return out
+
+
+# runs made with the JIT-compiled kernels; the second has hundreds of clusters (cluster ids above 255 / 256 in the labelling)
+JIT_CFGS = [{"N": 2, "W": 2, "K": 3, "beta": 4.0, "lam": 0.11, "limit": 3, "m": 2, "biased": False, "eps": 0, "joint": False,
+             "lengths": [70], "data_seed": 61, "rng_seed": 61, "regimes": 3},
+            {"N": 1, "W": 1, "K": 300, "beta": 1.0, "lam": 0.11, "limit": 2, "m": 1, "biased": False, "eps": 0, "joint": False,
+             "lengths": [900], "data_seed": 62, "rng_seed": 62, "regimes": 300, "staircase": True}]
+
+
 def run(ctx):
     rng = np.random.default_rng(ctx.seed)
     ctx.proof_layer(allowed_axioms=core.R_AX, coq_deps=["Corr/RunAccounting"])
     core.note_drift(ctx, ANCHORS)
+    jit_handle = core.start_worker(ctx, "vcheck.props.c06:worker_runs", JIT_CFGS, mode="jit", tag="jitruns")
     cov = core.LineCoverage()
     lits = []
     with cov:
@@ -109,6 +126,18 @@ def run(ctx):
                 ctx.mark_nontrivial(repr(r["cfg"]))
             check_result(ctx, r)
         ctx.notes["runs_ending_with_empty_cluster"] = empties
+        jr = core.wait_worker(jit_handle, timeout=600)
+        if not jr["ok"]:
+            ctx.violation("tie", "JIT-mode runs failed: %s" % jr["error"][:300], {"correspondence": "harness:C06/jit"}, no_input=True)
+        else:
+            for r in jr["result"]:
+                ctx.count("run-jit")
+                if r["error"] is not None:
+                    ctx.violation("monitor", "a run with the JIT-compiled kernels raised %s" % r["error"][:200], {"case": {"cfg": r["cfg"], "mode": "jit"}})
+                    continue
+                ctx.mark_nontrivial(("jit", repr(r["cfg"])))
+                ctx.notes.setdefault("jit_runs_max_label", []).append(max(r["result"]["point_labels"]))
+                check_result(ctx, r)
     core.anchored_check(ctx, ANCHORS, cov, ignore=("LOGGER.", "continue", "raise", "task_pool.terminate()", "task_pool.join()"))
     ctx.sample({"bucket case": lits[0][:200]})
     jobs = []
